@@ -948,10 +948,13 @@ class InverseTriangularMatrix(InvertibleMatrix, ImplicitArrayMatrix):
         return f"(shape={self.shape}, lower={self.lower})"
 
     def _compute_hash(self) -> int:
-        return hash_array(self._inverse_array)
+        return hash((hash_array(self._inverse_array), self.lower))
 
     def _check_equality(self, other: InverseTriangularMatrix) -> bool:
-        return np.array_equal(self._inverse_array, other._inverse_array)  # noqa: SLF001
+        return self.lower == other.lower and np.array_equal(
+            self._inverse_array,
+            other._inverse_array,  # noqa: SLF001
+        )
 
 
 class _BaseTriangularFactoredDefiniteMatrix(SymmetricMatrix, InvertibleMatrix):
@@ -2195,6 +2198,7 @@ class SquareLowRankUpdateMatrix(InvertibleMatrix, ImplicitArrayMatrix):
                 self.right_factor_matrix,
                 self.square_matrix,
                 self.inner_square_matrix,
+                self._sign,
             ),
         )
 
@@ -2204,6 +2208,7 @@ class SquareLowRankUpdateMatrix(InvertibleMatrix, ImplicitArrayMatrix):
             and self.right_factor_matrix == other.right_factor_matrix
             and self.square_matrix == other.square_matrix
             and self.inner_square_matrix == other.inner_square_matrix
+            and self._sign == other._sign  # noqa: SLF001
         )
 
 
@@ -2325,13 +2330,21 @@ class SymmetricLowRankUpdateMatrix(
         return self
 
     def _compute_hash(self) -> int:
-        return hash((self.factor_matrix, self.square_matrix, self.inner_square_matrix))
+        return hash(
+            (
+                self.factor_matrix,
+                self.square_matrix,
+                self.inner_square_matrix,
+                self._sign,
+            ),
+        )
 
     def _check_equality(self, other: SymmetricLowRankUpdateMatrix) -> bool:
         return (
             self.factor_matrix == other.factor_matrix
             and self.symmetric_matrix == other.symmetric_matrix
             and self.inner_symmetric_matrix == other.inner_symmetric_matrix
+            and self._sign == other._sign  # noqa: SLF001
         )
 
 
